@@ -254,6 +254,8 @@ def _worker(modname, tier, sub_index, shard, base_seed):
             import hypothesis
             from hypothesis import HealthCheck, Phase, given, settings
             n = max(1, sub.examples // sub.shards + (1 if shard < sub.examples % sub.shards else 0))
+            if os.environ.get("VERIF_SCALE"):          # tools/mutants.py: cheaper runs for the mutation sweep
+                n = max(1, int(n * float(os.environ["VERIF_SCALE"])))
 
             @hypothesis.seed(seed)
             @settings(max_examples=n, database=None, deadline=None, derandomize=False,
@@ -355,6 +357,15 @@ def main(argv=None):
     except ValueError:
         base_seed = 1
     t0 = time.time()
+    # every scratch file of this run (per-case directories, fuzz corpora) lives under one directory that is removed at
+    # the end, also when workers were killed half-way (fail-fast) and could not clean up themselves
+    import atexit
+    import shutil
+    import tempfile
+    scratch = tempfile.mkdtemp(prefix="vcheck_")
+    os.environ["TMPDIR"] = scratch
+    tempfile.tempdir = scratch
+    atexit.register(shutil.rmtree, scratch, ignore_errors=True)
     try:
         install_repo_path()
         modname = f"checks.{prop.lower()}"
